@@ -312,7 +312,7 @@ def deep_calls(ctx, root, rx, depth=2):
                 out.append((body, t, args))
             if d > 0 and c.get('local') and c['path'] in facts.bodies and c['path'] not in seen:
                 hb = facts.bodies[c['path']]
-                if hb.kind in ('fn', 'method') and hb.file.startswith('src/') and len(args) == hb.argc and ctx.cg.owner_step(hb.path) is not None:
+                if hb.kind in ('fn', 'method') and hb.file.startswith('src/') and len(args) == hb.argc and (ctx.cg.owner_step(hb.path) is not None or (len(hb.blocks) <= 60 and not re.search(r' as .*>::', hb.path) and hb.file == body.file)):
                     visit(hb, args, d - 1, seen | {c['path']})
         for cpath, agg in _closure_sites(facts, body).items():
             cb = facts.bodies.get(cpath)
